@@ -41,7 +41,7 @@ CASE_TIMEOUT_S = 200
 MAX_INCONCLUSIVE_FRAC = 0.05
 
 # gated features whose effect is structural (units swallowed / lost): all differences of such a case share one key
-STRUCTURAL = {'bare_end', 'prefix_special', 'nested_contains_last', 'string_type_keyword'}
+STRUCTURAL = {'bare_end', 'prefix_special', 'nested_contains_last', 'string_type_keyword', 'kw_binding_nocolon'}
 
 
 def setup_worker(tier, ctx):
